@@ -98,7 +98,7 @@ theorem register_spec (w : World) (hK : KInv w) (hS : SInv w) (f : Filter) (hf :
   · have hbase : SInv ({ w with cache := w.cache, cacheNext := w.cacheNext } : World) := hS
     refine ⟨⟨hS.node.tnode, hS.node.tables, hS.node.free, hS.node.tmap⟩,
       ⟨hS.tgt.sound, hS.tgt.complete, hS.tgt.free, hS.tgt.freeNodup, hS.tgt.empty, hS.tgt.norel⟩,
-      ⟨hS.cov.cover, hS.cov.active, hS.cov.single⟩, ?_⟩
+      ⟨hS.cov.cover, hS.cov.active, hS.cov.single, hS.cov.nonempty⟩, ?_⟩
     refine ⟨?_, ?_, ?_⟩
     · intro e he
       simp only [] at he
@@ -244,7 +244,7 @@ theorem unregister_spec (w : World) (hK : KInv w) (hS : SInv w) (id : Nat) (e : 
   refine ⟨trivial, hmem', ?_, kinv_congr (w := w) rfl rfl rfl hK⟩
   refine ⟨⟨hS.node.tnode, hS.node.tables, hS.node.free, hS.node.tmap⟩,
     ⟨hS.tgt.sound, hS.tgt.complete, hS.tgt.free, hS.tgt.freeNodup, hS.tgt.empty, hS.tgt.norel⟩,
-    ⟨hS.cov.cover, hS.cov.active, hS.cov.single⟩, ?_⟩
+    ⟨hS.cov.cover, hS.cov.active, hS.cov.single, hS.cov.nonempty⟩, ?_⟩
   refine ⟨?_, ?_, ?_⟩
   · intro e' he'
     have h0 := hS.cache.entries e' ((hmem' e').1 he').1
